@@ -664,11 +664,30 @@ func genCases(args []string) {
 			shapes = append(shapes, s)
 		})
 	}
+	// every shape goes through the four emission paths of oj (tight / indented x unsorted / sorted); the omit flags,
+	// the indent width, tab and htmlunsafe rotate with the shape index and the seed
 	off := int(seed() % 128)
 	for i, s := range shapes {
 		for k := 0; k < *reps; k++ {
 			f := &filler{r: r, ks: keyUniverse[r.Intn(len(keyUniverse))]}
-			ok := (i*37 + k*53 + off) % 128
+			ok := 0
+			if k&1 != 0 {
+				ok |= 8 // sort
+			}
+			if k&2 != 0 {
+				switch (i + k/4 + off) % 4 {
+				case 0:
+					ok |= 1
+				case 1:
+					ok |= 2
+				case 2:
+					ok |= 3
+				default:
+					ok |= 4 + (i & 1)
+				}
+			}
+			ok |= ((i + k + k/4 + off) % 4) << 4 // omitnil / omitempty
+			ok |= ((i/4 + k + off/4) % 2) << 6   // htmlunsafe
 			pk := (i*11 + k*7 + off) % 32
 			emit(f.fill(s), optsOf(ok), []pcfg{pcfgOf(pk), pcfgOf((pk + 13) % 32)}, fmt.Sprintf("shape%d", i))
 		}
